@@ -92,6 +92,14 @@ for f in DFAV:
 fns.extend(DFAV)
 
 
+F('db_primary_char', r'constexpr\s+slice\s+primary_char\(char c\)', 'struct utils__slice db_primary_char(char c)', scope=DB,
+  rules=[S(r'return primary_subset\(char_subset\(char_range\(c\)\)\);', 'struct char_subset vx_cs = vx_char_subset_of_range(c, c); return db_primary_subset(&vx_cs);', name='R16:temporaries char_range/char_subset')])
+ATD = [S(r'\bslice (prev|new_sl|whole|char_sl)\b', r'struct utils__slice \1', min=0, name='R2:struct'), S(r'slice prev\{0, size32_t\(b\.size\(\)\)\};', 'slice prev = {0, ((size32_t)(b_sm.current_size))};', name='R16:braced-init'),
+       S(r'\bb\.(primary_char|mark_end_states|alt|cat)\(', r'db_\1(', min=2, name='R3:builder b'), S(r'using slice = utils::slice;', '', name='R1:alias')]
+F('add_term_data_char', r'constexpr\s+void\s+add_term_data_to_dfa\(char c,\s*dfa_builder<N>& b,\s*size16_t idx\)', 'void add_term_data_char(char c, size16_t idx)', rules=ATD)
+F('add_term_data_string', r'constexpr\s+void\s+add_term_data_to_dfa\(const char \(&str\)\[DataSize\],\s*dfa_builder<N>& b,\s*size16_t idx\)', 'void add_term_data_string(const char* str, size_t DataSize, size16_t idx)', rules=ATD)
+
+
 def merge_rec_fragment(body):
     import re as _re
     ms = _re.findall(r'(?<![\w.])merge\(tr_to,\s*tr_from,\s*([^,()]+),\s*([^,()]+)\);', body)
@@ -160,6 +168,8 @@ static inline const char* vx_rd(const char* p) { __CPROVER_assert(__CPROVER_same
 ''' + open(os.path.join(HERE, '..', 'contracts', 'dfa.pre.h')).read()
 
 UNIT = Unit('dfa', PRELUDE, fns, consts=PC.UNINIT + [
+    ('VX_CHAR_TERM_DFA_SIZE', r'class char_term : public term\s*\{\s*public:\s*using internal_value_type = char;\s*static const size_t dfa_size = ([^;]+);', None),
+    ('VX_STRING_TERM_DFA_SIZE', r'using internal_value_type = std::string_view;\s*static const size_t dfa_size = ([^;]+);\s*static const bool is_trivial = true;', None),
     ('VX_MERGE_DEFAULT_KEEP', r'constexpr void merge\(size_t to, size_t from, bool keep_end_state = (\w+), bool mark_from_as_unreachable = \w+\)', None),
     ('VX_MERGE_DEFAULT_MARK', r'constexpr void merge\(size_t to, size_t from, bool keep_end_state = \w+, bool mark_from_as_unreachable = (\w+)\)', None)])
 UNIT.facts = [r'constexpr bool test\(size_t idx\) const \{ return data\.test\(idx\); \}', r'constexpr size_t size\(\) const \{ return data\.size\(\); \}', r'struct source_point\s*\{\s*size32_t line = 1;\s*size32_t column = 1;', r'using conflicted_terms = size16_t\[4\];', r'static const size_t transitions_size = meta::distinct_values_count<char>;',
